@@ -30,6 +30,9 @@ def run(prog, R, tier="quick", only_rule=None):
     c14b(prog, R)
     c14c(prog, R)
     c14d(prog, R)
+    # invisible to every snapshot taken earlier: readers pin one SuperVersion (also the blob side of a scan)
+    from rules.props import c02
+    c02.c02d(prog, R, rid="C14.e")
 
 
 def finishers(prog):
